@@ -258,6 +258,13 @@ impl Entries {
         self
     }
 
+    /// Verification hook: override the crate private open descriptor budget
+    #[cfg(rivia_verif)]
+    pub fn verif_max_descriptors(mut self, max: u16) -> Self {
+        self.max_descriptors = max;
+        self
+    }
+
     /// Set the default sorter to be by name
     ///
     /// * Defaults to `false`
@@ -267,13 +274,6 @@ impl Entries {
     /// ```
     /// use rivia::prelude::*;
     /// ```
-    /// Verification hook: override the crate private open descriptor budget
-    #[cfg(rivia_verif)]
-    pub fn verif_max_descriptors(mut self, max: u16) -> Self {
-        self.max_descriptors = max;
-        self
-    }
-
     pub fn sort_by_name(mut self) -> Self {
         self.sort_by_name = true;
         self.sort(|x, y| x.file_name().cmp(&y.file_name()))
